@@ -3,11 +3,18 @@
 import json, subprocess, sys
 ALL = [f"C{i:02d}" for i in range(1, 19)]
 HOOK_COMMITS = ["c6d6b2e"]
+E1NOTE = "Trusted: the reference interpreter /verif/mc/ref (plain loops written from the ONNX operator text, no code shared with gonnx/gorgonia), gorgonia At()/Data() for reading results. Verdict = no violation inside the stated box; the box contains every rank/extent-1/sign branch of the code."
 # property -> (level, engine, technique, text, note, design_ref)
 CHECKS = {
  "C14": ("exploration", "E1", "bounded-exhaustive enumeration of all ordered shape pairs on the real helpers vs index-arithmetic reference",
          "Every ordered pair of shapes of rank 0..4 with extents 1..3 (thorough: 1..4) is pushed through the real MultidirectionalBroadcast/UnidirectionalBroadcast and compared element by element with an independent index-arithmetic reference; sources are deep-snapshotted before/after. Exhaustive within the box, which contains every branch combination of the helpers (rank difference, extent==1, extent equality).",
          "Trusted: ref.BroadcastTo (20 lines of index arithmetic), gorgonia At()/Data() for reading results. Shapes beyond the box are only sampled (supplementary).", "DESIGN.md §3 C14"),
+ "C03": ("exploration", "E1", "bounded-exhaustive enumeration of operator x shape-pair x dtype x special-value pairs on the real operators vs per-element reference",
+         "All 12 binary operators on every ordered pair of shapes of rank 0..4 (extents 1..3), every dtype the gate accepts, and all ordered pairs of a special-value alphabet (NaN payloads, +-Inf, +-0, subnormals, integer extremes) are executed through GetOperator/Init/ValidateInputs/Apply and through single-node Model.Run, and compared bit for bit with a per-element reference. The statement's three domains (must compute / compute-or-refuse / must refuse) are transcribed literally.",
+         E1NOTE, "DESIGN.md §3 C03"),
+ "C07": ("exploration", "E1", "bounded-exhaustive enumeration of (shape, target/axes) requests incl. invalid ones, plus depth-2 operator-instance histories",
+         "Every input shape of rank 0..4 (thorough 0..5) x every Reshape target over {-1,0,1,2,3,4,6}^(1..4), every Flatten axis in [-r-1,r+1], every Squeeze/Unsqueeze axes sequence (negative, unsorted, duplicate, out of range), Shape; valid requests must give the ONNX shape with identical element order, invalid ones must give an error (never a tensor, never a panic). Each case is additionally replayed on an operator instance that already served another request (history of depth 2).",
+         E1NOTE, "DESIGN.md §3 C07"),
 }
 NA_REASON = "check not built yet in this session (see DESIGN.md §7 order of construction); decidable by bounded exhaustive exploration, to be claimed once its explorer exists"
 def main():
